@@ -620,6 +620,41 @@ void add_type() {
   add<T>(OP_RELOC_AT, "ptr", &group_single<OP_RELOC_AT, T>);
 }
 
+/// A move-only type goes through every algorithm that does not need a copy: lvalue sources for move / relocate,
+/// rvalue (move_iterator) and converting (int*) sources for uninitialized_copy as well; no const T* source, no
+/// construct_at(p, const T&).
+template <int OP, class T>
+void add_rvalue_sources() {
+  add_range<OP, T, SMove<SPtr> >();
+  add_range<OP, T, SMove<SVec> >();
+  add_range<OP, T, SMove<SDeq> >();
+  add_range<OP, T, SMove<SList> >();
+  add_range<OP, T, SMove<SFwd> >();
+  add_range<OP, T, SConv>();
+}
+template <class T>
+void add_type_move_only() {
+  add_rvalue_sources<OP_COPY, T>();
+  add_rvalue_sources<OP_COPY_N, T>();
+  add_relocate<OP_MOVE, T>();  // the five lvalue source kinds
+  add_relocate<OP_MOVE_N, T>();
+  add_rvalue_sources<OP_MOVE, T>();
+  add_rvalue_sources<OP_MOVE_N, T>();
+  add_relocate<OP_RELOC, T>();
+  add_relocate<OP_RELOC_N, T>();
+  add<T>(OP_DEF, "-", &group_fill<OP_DEF, T>);
+  add<T>(OP_DEF_N, "-", &group_fill<OP_DEF_N, T>);
+  add<T>(OP_VAL, "-", &group_fill<OP_VAL, T>);
+  add<T>(OP_VAL_N, "-", &group_fill<OP_VAL_N, T>);
+  add<T>(OP_DESTROY, "-", &group_destroy<OP_DESTROY, T>);
+  add<T>(OP_DESTROY_N, "-", &group_destroy<OP_DESTROY_N, T>);
+  add<T>(OP_DESTROY_AT, "-", &group_destroy<OP_DESTROY_AT, T>);
+  add<T>(OP_CAT_VALUE, "-", &group_single<OP_CAT_VALUE, T>);
+  add<T>(OP_CAT_DEFAULT, "-", &group_single<OP_CAT_DEFAULT, T>);
+  add<T>(OP_CAT_MOVE, "ptr", &group_single<OP_CAT_MOVE, T>);
+  add<T>(OP_RELOC_AT, "ptr", &group_single<OP_RELOC_AT, T>);
+}
+
 template <int OP, class AT>
 void add_array() {
   Group g = {OP, OP == OP_CAT_ARR_DEFAULT ? "-" : "ptr", array_name<AT>(), &group_array<OP, AT>};
@@ -647,7 +682,7 @@ template <class E>
 void add_arrays() {
   typedef E A2[2];
   typedef E A22[2][2];
-  const bool copy_form = !std::is_trivially_copyable<E>::value;
+  const bool copy_form = !std::is_trivially_copyable<E>::value && std::is_copy_constructible<E>::value;
   (void)sizeof(A22);
   (void)copy_form;
 #if !C15_STD20
@@ -667,7 +702,7 @@ void add_arrays() {
 #endif
 }
 
-// The element types are spread over C15_PART = 0..5 so that one -std= can be compiled as six translation units in
+// The element types are spread over C15_PART = 0..7 so that one -std= can be compiled as eight translation units in
 // parallel (the whole enumeration in one unit takes minutes to compile with the sanitizers); without -DC15_PART the
 // program covers everything.  checks/c15.py maps a case id to its part by the type field.
 #ifndef C15_PART
@@ -695,6 +730,13 @@ void register_groups() {
 #if C15_IN_PART(5)
   add_type<NTRX>();
   add_arrays<NTRX>();
+#endif
+#if C15_IN_PART(6)
+  add_type_move_only<NTRXMO>();
+  add_arrays<NTRXMO>();
+#endif
+#if C15_IN_PART(7)
+  add_type<TDCA>();
 #endif
 }
 
